@@ -202,7 +202,15 @@ class MultiDecoder(ContentDecoder):
         self._decoders = [_get_decoder(m.strip()) for m in modes.split(",")]
 
     def flush(self) -> bytes:
-        return self._decoders[0].flush()
+        # Flush in the order of decoding: what an outer decoder still holds
+        # goes through the inner ones, and every decoder gets to report an
+        # incomplete stream.
+        data = b""
+        for d in reversed(self._decoders):
+            if data:
+                data = d.decompress(data)
+            data += d.flush()
+        return data
 
     def decompress(self, data: bytes) -> bytes:
         for d in reversed(self._decoders):
